@@ -837,6 +837,9 @@ def op_alphabet(shape, level="full"):
     ops += [("removefiltered", "p", 0, ["", P[0][1]]), ("removefiltered", "p", 0, [P[0][0], "", P[0][-1]] if len(P[0]) == 3 else [P[0][0], "", P[0][2]]),
             ("removefiltered", "p", 1, [P[1][1], ""]), ("removefiltered", "g", 0, ["", G[0][1]]), ("removefiltered", "p", 0, ["", ""])]
     ops += [("removeread", "g"), ("removeread", "p")]
+    # a grouping rule with fewer fields than the role definition: alone, and in a batch before / after a valid rule
+    short = G[0][:-1]
+    ops += [("add", "g", short), ("addmany", "g", [G[1], short]), ("addmany", "g", [short, G[2]])]
     ops += [("delete_user", "alice"), ("delete_role", "admin"), ("delete_roles_for_user", "alice"), ("delete_role_for_user", "alice", "admin") if shape != "dom" else ("delete_roles_for_user_in_domain", "alice", "admin", "d1")]
     if shape != "dom":
         ops += [("add_role_for_user", "bob", "root")]
